@@ -385,6 +385,23 @@ def run_glue(ctx, res, data):
             res.violations.append(dict(signature='C18/handler-branch', what='direct call of the request-reply command handler rejected by processed_ok (composed with the C02 Router model)', case=chunk[i][0]))
         for i in r['R_mis']:
             res.mismatches.append(dict(kind='Corr.C18.c18_onproc_mismatch (ReqReply/Processed.v on_processed vs handler.go + OnCommandProcessed + MarshalReply, direct call)', explained_by_violation=i in r['R_vio'], case=chunk[i][0]))
+    acases = []
+    for a in data.get('api_cases') or []:
+        res.evaluations += 1
+        if a['kind'] == 'v':
+            acases.append((a, '(AV (VC %s) %s)' % (' '.join(C.coq_bool(x) for x in a['flags']), C.coq_bool(a['accepted']))))
+            res.count('api_cases:NewPubSubBackend validation')
+        else:
+            acases.append((a, '(AL %s (LI %s) (AO %s %d))' % (C.coq_bool(a['hook']), ' '.join(C.coq_bool(x) for x in a['in']), ' '.join(C.coq_bool(x) for x in a['obs']), a['hooks'])))
+            res.count('api_cases:SendWithReplies exits without a channel')
+    if acases:
+        r = C.coq_eval(pid, 'cases_api', HEADER.replace('Corr.C18.', 'ReqReply.Caller ReqReply.Api Corr.C18.') + 'Definition cases : list c18_api_case := %s.\n' % C.coq_list([c[1] for c in acases]),
+                       [('R_vio', 'c18_api_violations cases')])
+        for i in r['R_vio']:
+            a = acases[i][0]
+            res.violations.append(dict(signature='C18/api:' + ('validation' if a['kind'] == 'v' else 'send-with-replies-exit'),
+                                       what='API glue rejected by the acceptor of ReqReply/Api.v (%s)' % ('validate_ok: NewPubSubBackend accepts exactly the complete configurations' if a['kind'] == 'v' else
+                                            'api_ok: error exits hand back (nil channel, cancel func, error), cancel the Subscribe context, and a listener already started finishes: closed, hook once'), case=a))
     for c in data.get('api_checks') or []:
         res.evaluations += 1
         res.count('api_error_path_checks')
